@@ -117,6 +117,9 @@ def run(ctx):
                 # log-density (labelling table / final per-point pass) must still agree
                 cfg["shift"] = [float(10 ** ctx.rng.choice([5, 6, 7, 8]))] * cfg["N"]
             cfgs.append(cfg)
+        # small-amplitude data: log-densities ABOVE zero (densities above 1) for most windows - the sign of a log-likelihood
+        # carries no meaning and every labelled window still has exactly one entry
+        cfgs += tu.concentrated_configs(ctx.rng, 3 if ctx.quick() else 30)
         for i in range(9 if ctx.quick() else 90):
             cfg = tu.gen_config(ctx.rng)
             cfg["limit"] = 1
@@ -210,6 +213,8 @@ def run(ctx):
             ctx.count("runs_vector_beta")
         if cfg.get("beta_form"):
             ctx.count("runs_scalar_beta_as:" + cfg["beta_form"])
+        if any(float(x) > 0 for x in res.all_log_likelihood):
+            ctx.count("runs_with_positive_log_likelihoods")
         if cfg.get("force_final"):
             ctx.count("runs_forced_final:" + cfg["force_final"])
         for (site, msg, extra) in oracles.result_consistency(res, K, beta, cfg["joint"], check_cost=not cfg.get("force_final")):
